@@ -295,7 +295,78 @@ fn all_consistent(ix: &TextIndex, n: &Spanned<Sp>) -> Result<(), String> {
     }
 }
 
+/// merged keys and serde's static errors (`special` 30..): a struct with deny_unknown_fields
+/// receives its keys through `<<`; the unknown key `zz` sits at different places of the base. The
+/// error must be the unknown-field error and be located at the `zz` key (its definition) or at
+/// the merge entry's value (its use site) - not at another key or at the enclosing mapping.
+const MERGE_STATIC: [&str; 10] = [
+    "base: &b {zz: 9, a: 1, b: 2}\nt:\n  <<: *b\n",
+    "base: &b {a: 1, zz: 9, b: 2}\nt:\n  <<: *b\n",
+    "base: &b {a: 1, b: 2, zz: 9}\nt:\n  <<: *b\n",
+    "# \u{4e2d}\nbase: &b\n  a: 1\n  b: 2\n  zz: 9\nt:\n  <<: *b\n",
+    "base: 0\nt:\n  <<: {a: 1, zz: 2}\n",
+    "base: 0\nt:\n  <<: {a: 1, b: 2, zz: 2}\n",
+    "base: &b {a: 1}\nmid: &m {<<: *b, b: 2, zz: 3}\nt:\n  <<: *m\n",
+    "base: &b {b: 2, zz: 3}\nmid: &m {a: 1, <<: *b}\nt:\n  <<: *m\n",
+    "base: &b {a: 1, b: 2}\nc: &c {zz: 3}\nt:\n  <<: [*b, *c]\n",
+    "base: &b {a: 1}\nc: &c {b: 2, zz: 3}\nt: {<<: [*b, *c]}\n",
+];
+#[derive(Debug, Deserialize)]
+#[serde(deny_unknown_fields)]
+#[allow(dead_code)]
+struct Deny {
+    #[serde(default)]
+    a: i32,
+    #[serde(default)]
+    b: i32,
+}
+#[derive(Debug, Deserialize)]
+#[allow(dead_code)]
+struct DenyDoc {
+    #[serde(default)]
+    base: serde::de::IgnoredAny,
+    #[serde(default)]
+    mid: serde::de::IgnoredAny,
+    #[serde(default)]
+    c: serde::de::IgnoredAny,
+    t: Deny,
+}
+fn check_merge_static(text: &str) -> Result<(), String> {
+    let ix = index(text);
+    let pos_of = |needle: &str, last: bool| -> Option<(usize, usize)> {
+        let b = if last { text.rfind(needle)? } else { text.find(needle)? };
+        ix.chars.iter().find(|(_, _, bo)| *bo == b).map(|(l, c, _)| (*l, *c))
+    };
+    let key = pos_of("zz", false).ok_or("no zz")?;
+    // the value of the `<<` entry of `t`: the text after the last "<<: "
+    let use_site = text.rfind("<<: ").map(|b| b + 4).and_then(|b| ix.chars.iter().find(|(_, _, bo)| *bo == b).map(|(l, c, _)| (*l, *c)));
+    match serde_saphyr::from_str::<DenyDoc>(text) {
+        Ok(v) => Err(format!("unknown field accepted: {v:?}")),
+        Err(e) => {
+            let msg = e.without_snippet().to_string();
+            if !msg.contains("unknown field `zz`") {
+                return Err(format!("another error than unknown field `zz`: {msg}"));
+            }
+            let Some(l) = e.location() else { return Err(format!("no location: {msg}")) };
+            consistent(&ix, &l, "error location")?;
+            let at = (l.line() as usize, l.column() as usize);
+            if at == key || Some(at) == use_site {
+                Ok(())
+            } else {
+                Err(format!("unknown field `zz` located at {}:{}, the key is at {}:{} and the merge entry's value at {:?}", at.0, at.1, key.0, key.1, use_site))
+            }
+        }
+    }
+}
+
 fn check_case(c: &Case) -> Outcome {
+    if c.special >= 30 && c.special < 50 {
+        let text = MERGE_STATIC[(c.special as usize - 30) % MERGE_STATIC.len()];
+        return match check_merge_static(text) {
+            Ok(()) => Outcome::Pass,
+            Err(m) => Outcome::Fail(format!("{m} (text {text:?})")),
+        };
+    }
     if c.special >= 50 && c.special < 100 {
         let r = gdoc::render(&c.doc, &Layout { doc_start: false, ..c.layout.clone() });
         let text = format!("{}{}", DIRECTIVES[(c.special as usize - 50) % DIRECTIVES.len()], r.text);
@@ -314,7 +385,7 @@ fn check_case(c: &Case) -> Outcome {
             },
         };
     }
-    if c.special > 0 && c.special < 50 {
+    if c.special > 0 && c.special < 30 {
         let (text, base, alias, own) = MERGE_DOCS[(c.special as usize - 1) % MERGE_DOCS.len()];
         let base: Vec<(String, (usize, usize))> = base.iter().map(|(k, p)| (k.to_string(), *p)).collect();
         let own: Vec<(String, (usize, usize))> = own.iter().map(|(k, p)| (k.to_string(), *p)).collect();
@@ -665,6 +736,10 @@ impl Property for C16 {
         }
         ctx.subspace("3 fixed documents x every scalar leaf (or none) x 586 layouts", total, true);
         if ctx.worker == 0 {
+            for n in 30..30 + MERGE_STATIC.len() as u8 {
+                let c = Case { doc: Node::plain("merge-static"), layout: Layout::default(), bad_leaf: None, special: n };
+                ctx.case("merged-key-static-errors", &c, true);
+            }
             for n in 1..=MERGE_DOCS.len() as u8 {
                 let c = Case { doc: Node::plain("merge"), layout: Layout::default(), bad_leaf: None, special: n };
                 ctx.case("merge-locations", &c, true);
